@@ -43,7 +43,7 @@ func localRefsOnly(s interface{}) bool {
 // check the ORACLE (JsonSchema!Valid) against independent labels. This validates the specification, not the code.
 func driveSuite(args []string) error {
 	fs := flag.NewFlagSet("drive-suite", flag.ExitOnError)
-	dir := fs.String("dir", "/repo/fixtures/jsonschema_suite", "suite directory")
+	dir := fs.String("dir", repoRoot()+"/fixtures/jsonschema_suite", "suite directory")
 	out := fs.String("out", "", "output directory")
 	fs.Parse(args)
 	files, _ := filepath.Glob(filepath.Join(*dir, "*.json"))
